@@ -139,6 +139,10 @@ class NameSanitizer:
             # fallback: split on non-alphanumerics
             words = re.split(r"\W+", name)
         module = "_".join(word.lower() for word in words if word)
+        # Keep only characters that can appear in an identifier (e.g. drop superscript digits matched by \W fallback)
+        module = "".join(ch for ch in module if ("_" + ch).isidentifier())
+        if not module.strip("_"):
+            module = "unnamed"  # name had no usable characters (empty, symbols only)
         # If it starts with a digit, prefix with underscore
         if module and module[0].isdigit():
             module = "_" + module
@@ -166,7 +170,11 @@ class NameSanitizer:
         if cls_name[0].isdigit():  # Check after ensuring cls_name is not empty
             cls_name = "_" + cls_name
         # Avoid Python keywords and reserved names (case-insensitive)
-        if keyword.iskeyword(cls_name.lower()) or cls_name.lower() in NameSanitizer.RESERVED_NAMES:
+        if (
+            keyword.iskeyword(cls_name)  # True, False, None are keywords only in their capitalised form
+            or keyword.iskeyword(cls_name.lower())
+            or cls_name.lower() in NameSanitizer.RESERVED_NAMES
+        ):
             cls_name += "_"
         return cls_name
 
@@ -206,6 +214,8 @@ class NameSanitizer:
         name = re.sub(r"[^0-9a-zA-Z_]", "_", name)
         # Lowercase and collapse multiple underscores
         name = re.sub(r"_+", "_", name).strip("_").lower()
+        if not name:
+            name = "unnamed"  # name had no usable characters (empty, symbols or non-ASCII only)
         # If it starts with a digit, prefix with underscore
         if name and name[0].isdigit():
             name = "_" + name
